@@ -526,3 +526,46 @@ def normalise(tree):
 
 def unroll(tree, model_tables):
     return unroll_constant_loops(tree)
+
+
+def expand_helpers(model, cls_name, stmts, depth=2, skip=lambda name: False):
+    """Flow-insensitive call-site expansion: for rules that only COLLECT facts (which operations are called with which kinds of
+    arguments), a call of a helper that is not itself one of the collected operations is followed by the helper's body with the
+    arguments substituted for the parameters (bound methods passed as arguments included).  Returns the extra statements."""
+    out = []
+    if depth <= 0:
+        return out
+    for top in stmts:
+        for c in ast.walk(top):
+            if not isinstance(c, ast.Call):
+                continue
+            f = c.func
+            target = None
+            args = list(c.args)
+            if isinstance(f, ast.Name) and f.id in model.functions:
+                target = model.functions[f.id]
+            elif isinstance(f, ast.Attribute) and isinstance(f.value, ast.Name):
+                owner = cls_name if f.value.id in ("self", "cls") else (f.value.id if f.value.id in model.classes else None)
+                if owner is not None and not skip(f.attr):
+                    try:
+                        target = model.func("%s.%s" % (owner, f.attr))
+                    except Exception:
+                        target = None
+                    if target is not None and "staticmethod" not in getattr(target, "_deco", []) and f.value.id in ("self",):
+                        args = [f.value] + args
+            if target is None or skip(getattr(target, "name", "")):
+                continue
+            params = [a.arg for a in target.args.args]
+            if len(args) > len(params) or any(isinstance(a, ast.Starred) for a in args):
+                continue
+            mapping = dict(zip(params, args))
+            for k in c.keywords:
+                if k.arg in params:
+                    mapping[k.arg] = k.value
+            sub = _Subst(mapping, {})
+            body = [sub.visit(copy.deepcopy(s)) for s in target.body if not (isinstance(s, ast.Expr) and isinstance(s.value, ast.Constant))]
+            for s in body:
+                ast.fix_missing_locations(s)
+            out.extend(body)
+            out.extend(expand_helpers(model, cls_name, body, depth - 1, skip))
+    return out
